@@ -43,4 +43,10 @@ VARIANTS = [
     V("C14-n04-meta-loop-enumerate", "neutral",
       "        for container in self.refinementContainers:\n            container.clear_new_objects()\n",
       "        for cont_d in self.refinementContainers:\n            cont_d.clear_new_objects()\n", file="RefinementContainer.py"),
+    # D9: one accumulator object per interval
+    V("C14-b60-all-intervals-share-the-volume-array", "break", "                    refine_obj.add_volume(modified_volume * component_grid.coefficient)\n",
+      "                    refine_obj.add_volume(volume)\n", "C14.D9", file="spatiallyAdaptiveSingleDimension2.py"),
+    V("C14-n60-share-through-a-local", "neutral", "                    refine_obj.add_volume(modified_volume * component_grid.coefficient)\n",
+      "                    share = modified_volume * component_grid.coefficient\n                    refine_obj.add_volume(share)\n",
+      file="spatiallyAdaptiveSingleDimension2.py"),
 ]
